@@ -3,9 +3,9 @@ import multiprocessing as mp
 import os
 
 from ..lib import cbuild, tlc
-from ..lib.common import workdir, rmworkdir, seed, log
+from ..lib.common import workdir, rmworkdir, seed, log, MachineryError
 from ..lib.report import Report
-from ..drivers import simdrv, tabledrv
+from ..drivers import simdrv, tabledrv, replaylib
 
 PID = 'C05'
 
@@ -116,3 +116,44 @@ def run(tier):
     rep.assumptions = ['Z80.tla transcribes the Zilog manual + Undocumented Z80 Documented; flag bits listed in Eff.mask only']
     rmworkdir('c05')
     return rep.finish()
+
+
+def rerun_step(rp, path):
+    """A recorded single-step case (opcode bytes, registers, port value, machine) executed again on the four simulators of the
+    current tree -> fresh case for StepCases.  (Also used by the replays of C07 and C08, which judge the same cases.)"""
+    replaylib.need(rp, path, 'key', 'r', 'ov', 'inv')
+    c = {k: rp[k] for k in ('key', 'r', 'ov', 'inv')}
+    c['frame'], c['ia'] = rp.get('frame', 69888), rp.get('ia', 32)
+    cbuild.preload()
+    if '/128:' in c['key']:
+        try:
+            page, rom = [int(x) for x in c['key'].split('/128:')[1].split(':')[:2]]
+        except ValueError:
+            raise MachineryError('unusable replay file %s: key %r does not name the 128K configuration' % (path, c['key']))
+        c['obs'] = [im.run_case(c) for im in simdrv.impls128(page, rom)]
+    else:
+        simdrv.run_cases([c])
+    return c
+
+
+def replay(path):
+    """./check C05 --replay replays/C05-n.json : the recorded step on the four simulators again (or the recorded table dumped
+    again from all implementations), judged by StepCases / TableCases."""
+    d, rp = replaylib.load(path, PID)
+    wd = workdir('replay-c05')
+    rep = Report(PID, 'replay')          # only collects what the judges say; never finished (no evidence written)
+    found = []
+    if 'table' in rp:
+        # SZ53P / PARITY exist in skoolkit.simtables only (no instruction to dump them through)
+        merged = table_dumps([rp['table']] if rp['table'] in tabledrv.EXEC else ['NEG'])
+        if rp['table'] not in merged:
+            raise MachineryError('unusable replay file %s: unknown table %r' % (path, rp['table']))
+        judge_tables(rep, {rp['table']: merged[rp['table']]}, wd)
+        found = ['%s: %s' % (k, w) for k, w, _ in rep.violations]
+    else:
+        c = rerun_step(rp, path)
+        for _, clause in judge_steps(rep, [c], wd):
+            impl, _, cl = clause.partition(':')
+            found.append('step:%s:%s:%s: single step %s on %s: clause %s fails' % (c['key'].split('/')[0], impl, cl, c['key'], impl, cl))
+    rmworkdir('replay-c05')
+    return replaylib.verdict(PID, path, found)
